@@ -8,8 +8,8 @@ definitions (`Gen/Mmetrics.lean`).  `Props/C17.lean` proves that they are what t
   `count(max) >= 2`, `+ 1`), the forking-root test `> 1`, the walk condition, `len(seg) < min_twig_size`, the
   fix-up (`s[0]`, `this_seg[-1]`, default 1), what is forwarded to navis-fastcore, the `method` literals;
 * `synapse_flow_centrality` / `flow_centrality`: the `mode` literals and default, the formulas
-  `(total_post − distal_post)·distal_pre`, `distal_post·(total_pre − distal_pre)`, their sum, `(L − d)·d`, which
-  formula each mode selects, which connector type feeds `presynapses=` / `postsynapses=` of navis-fastcore, the
+  `(total_post − distal_post)·distal_pre`, `distal_post·(total_pre − distal_pre)`, their sum, `(L − d)·d` and the node types it is
+  evaluated at (branch points, leafs, roots), which formula each mode selects, which connector type feeds `presynapses=` / `postsynapses=` of navis-fastcore, the
   fork rule (`type == "branch"`, `groupby("parent_id")`, `.max()`, assignment through `.loc[bp]` — by id, not by
   position), the segment propagation (`s[i − 1]`, default 0), `directed=True`, `< np.inf`;
 * `bending_flow`: `degree(root) > 1`, `permutations(…, r=2)`, which factor is indexed by which branch, `any(isin(…))`;
@@ -388,7 +388,16 @@ def fc_facts(tree):
     fn = _func(tree, 'flow_centrality')
     F['decorators'] = _decorators(fn)
     F['leafs'] = ast.unparse(_one(_assigns(fn, 'leafs'), 'flow_centrality: leafs').value)
-    F['calc'] = ast.unparse(_one(_assigns(fn, 'calc_node_ids'), 'flow_centrality: calc_node_ids').value)
+    calc = _one(_assigns(fn, 'calc_node_ids'), 'flow_centrality: calc_node_ids')
+    types = []
+    for m in _mask_names(calc.value, 'flow_centrality: calc_node_ids'):
+        # each mask is `x.nodes["type"] == "<literal>"` (the definition in force where calc_node_ids is built)
+        d = max([a for a in _assigns(fn, m) if a.lineno < calc.lineno], key=lambda a: a.lineno, default=None)
+        if d is None or not (isinstance(d.value, ast.Compare) and len(d.value.ops) == 1 and isinstance(d.value.ops[0], ast.Eq)
+                             and 'type' in ast.unparse(d.value.left) and isinstance(_const(d.value.comparators[0]), str)):
+            raise ValueError(f'flow_centrality: mask `{m}` is not `x.nodes["type"] == <literal>`')
+        types.append(_const(d.value.comparators[0]))
+    F['calcTypes'] = sorted(types)
     d = _one([a for a in _assigns(fn, 'flow') if isinstance(a.value, ast.DictComp)], 'flow_centrality: formula')
     F['formulaE'] = to_E(d.value.value)
     F['formulaOver'] = ast.unparse(d.value.generators[0].iter)
@@ -681,7 +690,8 @@ def generate(repo: Path):
     o.append('/-! ### `flow_centrality` -/')
     o.append(f'def fcDecorators : List (String × List String) := {ldecos(L_["decorators"])}')
     o.append(f'def fcLeafs : String := {lstr(L_["leafs"])}')
-    o.append(f'def fcCalc : String := {lstr(L_["calc"])}')
+    o.append('/-- node types at which the formula is evaluated: `calc_node_ids = x.nodes[<type == …> | …].node_id.values` -/')
+    o.append(f'def fcCalcTypes : List String := {lstrs(L_["calcTypes"])}')
     o.append(f'def fcFormulaE : E := {L_["formulaE"]}')
     o.append(f'def fcFormulaOver : String := {lstr(L_["formulaOver"])}')
     o.append(f'def fcDistalSumAxis : String := {lstr(L_["distalSumAxis"])}')
